@@ -3,8 +3,8 @@
 
   The theorems of `CTM/Props/C06.lean` restated with the acceptance of the
   STORED taxonomy by the model of `validate_taxonomy_tree` as the hypothesis
-  (`t0.validate = .ok ()`, distinct level names, dict keys distinct, a node at
-  the top: see `CTM/Lemmas/BridgeWF.lean`); the tree the run votes on
+  (`t0.validate = .ok ()`, plus the modelling convention `DictOK t0` for Python
+  dict keys: see `CTM/Lemmas/BridgeWF.lean`); the tree the run votes on
   (`runTree t0 cfg`: after `drop_level` / `flatten`) inherits the level loop's
   well-formedness by `Bridge.wfb_runTree`, so no hypothesis on it remains except
   the oracle's (`VoteOK t vote`).
@@ -19,17 +19,16 @@ open CTM CTM.LevelLoop CTM.RawTree CTM.Bridge
 index": on every validator-accepted taxonomy, row `i` of the batch result of
 `run_type_assignment` is what the loop returns for that cell alone. -/
 theorem rowwise_of_validate {κ} (t : RawTree) (vote : Oracle κ) (cells : List κ)
-    (hval : t.validate = .ok ()) (hN : t.hierarchy.Nodup) (hd : DictOK t) (hnode : HasNode t)
+    (hval : t.validate = .ok ()) (hd : DictOK t)
     (hv : VoteOK t vote)
     (rs : List (List (Level × Entry))) (h : runLevelLoop t vote cells = .ok rs)
     (i : Nat) (c : κ) (hc : cells[i]? = some c) :
     ∃ r, rs[i]? = some r ∧ runLevelLoop t vote [c] = .ok [r] :=
-  rowwise t vote cells (wfb_of_validate hval hN hd hnode) hv rs h i c hc
+  rowwise t vote cells (wfb_of_validate hval hd) hv rs h i c hc
 
 example : ∀ rs, runLevelLoop exTree exVote [4, 1, 3] = .ok rs →
     ∃ r, rs[1]? = some r ∧ runLevelLoop exTree exVote [1] = .ok [r] :=
-  fun rs h => rowwise_of_validate _ _ _ exTree_accepted.1 exTree_accepted.2.1 exTree_accepted.2.2.1
-    exTree_accepted.2.2.2 (exVote_ok _) rs h 1 1 rfl
+  fun rs h => rowwise_of_validate _ _ _ exTree_accepted.1 exTree_accepted.2 (exVote_ok _) rs h 1 1 rfl
 
 /-- "the result for a cell ... is unchanged by reordering the cells of the query
 file, by removing, adding or duplicating other cells, and by changing chunk size
@@ -37,7 +36,7 @@ or worker count" — for every validator-accepted stored taxonomy and any two
 configurations that lead to the same run tree. -/
 theorem company_independent_of_validate {κ} (t0 t : RawTree) (vote : Oracle κ)
     (cfg cfg' : Config) (ids ids' : List CellId) (cells cells' : List κ) (order order' : List Nat)
-    (hval : t0.validate = .ok ()) (hN : t0.hierarchy.Nodup) (hd : DictOK t0) (hnode : HasNode t0)
+    (hval : t0.validate = .ok ()) (hd : DictOK t0)
     (hrun : runTree t0 cfg = .ok t) (hrun' : runTree t0 cfg' = .ok t)
     (hv : VoteOK t vote)
     (hlen : ids.length = cells.length) (hlen' : ids'.length = cells'.length)
@@ -56,7 +55,7 @@ theorem company_independent_of_validate {κ} (t0 t : RawTree) (vote : Oracle κ)
     (hid' : ids'[j]? = some id) (hc' : cells'[j]? = some c) :
     ∃ o, out[i]? = some o ∧ out'[j]? = some o :=
   company_independent t0 t vote cfg cfg' ids ids' cells cells' order order' hrun hrun'
-    (wfb_runTree (wfb_of_validate hval hN hd hnode) hrun) hv hlen hlen' hnd hnd' hproc hproc'
+    (wfb_runTree (wfb_of_validate hval hd) hrun) hv hlen hlen' hnd hnd' hproc hproc'
     hcs hcs' horder horder' out out' hout hout' i j id c hid hc hid' hc'
 
 example : ∀ out out',
@@ -65,7 +64,7 @@ example : ∀ out out',
     ∃ o, out[2]? = some o ∧ out'[0]? = some o :=
   fun out out' h h' => company_independent_of_validate exTree exTree exVote { chunkSize := 2, nProc := 2 }
     { chunkSize := 1, nProc := 1 } [7, 3, 9] [9, 5] [0, 1, 2] [2, 0] [1, 0] [0, 1]
-    exTree_accepted.1 exTree_accepted.2.1 exTree_accepted.2.2.1 exTree_accepted.2.2.2 rfl rfl
+    exTree_accepted.1 exTree_accepted.2 rfl rfl
     (exVote_ok _) rfl rfl (by decide) (by decide) (by decide) (by decide) (by decide) (by decide)
     (by decide) (by decide) out out' h h' 2 0 9 2 rfl rfl rfl rfl
 
@@ -74,7 +73,7 @@ stored taxonomy the same query mapped with any two chunk sizes >= 1, worker
 counts >= 1 and gathering orders gives the same output list. -/
 theorem chunking_of_validate {κ} (t0 t : RawTree) (vote : Oracle κ)
     (cfg cfg' : Config) (ids : List CellId) (cells : List κ) (order order' : List Nat)
-    (hval : t0.validate = .ok ()) (hN : t0.hierarchy.Nodup) (hd : DictOK t0) (hnode : HasNode t0)
+    (hval : t0.validate = .ok ()) (hd : DictOK t0)
     (hrun : runTree t0 cfg = .ok t) (hrun' : runTree t0 cfg' = .ok t)
     (hv : VoteOK t vote)
     (hlen : ids.length = cells.length) (hnd : ids.Nodup)
@@ -86,20 +85,19 @@ theorem chunking_of_validate {κ} (t0 t : RawTree) (vote : Oracle κ)
       (chunks cells.length (effChunk cells.length cfg'.nProc cfg'.chunkSize)).length)) :
     mapPipeline t0 cfg vote ids cells order = mapPipeline t0 cfg' vote ids cells order' :=
   chunking t0 t vote cfg cfg' ids cells order order' hrun hrun'
-    (wfb_runTree (wfb_of_validate hval hN hd hnode) hrun) hv hlen hnd hproc hproc' hcs hcs'
+    (wfb_runTree (wfb_of_validate hval hd) hrun) hv hlen hnd hproc hproc' hcs hcs'
     horder horder'
 
 example : mapPipeline exTree { chunkSize := 2, nProc := 2 } exVote [7, 3, 9] [0, 1, 2] [1, 0] =
     mapPipeline exTree { chunkSize := 5, nProc := 1 } exVote [7, 3, 9] [0, 1, 2] [0] :=
-  chunking_of_validate exTree exTree exVote _ _ _ _ _ _ exTree_accepted.1 exTree_accepted.2.1
-    exTree_accepted.2.2.1 exTree_accepted.2.2.2 rfl rfl (exVote_ok _) rfl (by decide)
+  chunking_of_validate exTree exTree exVote _ _ _ _ _ _ exTree_accepted.1 exTree_accepted.2 rfl rfl (exVote_ok _) rfl (by decide)
     (by decide) (by decide) (by decide) (by decide) (by decide) (by decide)
 
 /-- "Cells with identical expression vectors therefore receive identical
 results" — on every validator-accepted stored taxonomy. -/
 theorem identical_cells_of_validate {κ} (t0 t : RawTree) (vote : Oracle κ) (cfg : Config)
     (ids : List CellId) (cells : List κ) (order : List Nat)
-    (hval : t0.validate = .ok ()) (hN : t0.hierarchy.Nodup) (hd : DictOK t0) (hnode : HasNode t0)
+    (hval : t0.validate = .ok ()) (hd : DictOK t0)
     (hrun : runTree t0 cfg = .ok t) (hv : VoteOK t vote)
     (hlen : ids.length = cells.length) (hnd : ids.Nodup)
     (hproc : 1 ≤ cfg.nProc) (hcs : 1 ≤ cfg.chunkSize)
@@ -111,15 +109,14 @@ theorem identical_cells_of_validate {κ} (t0 t : RawTree) (vote : Oracle κ) (cf
     (hci : cells[i]? = some c) (hcj : cells[j]? = some c) :
     ∃ oi oj, out[i]? = some oi ∧ out[j]? = some oj ∧ oi.levels = oj.levels :=
   identical_cells t0 t vote cfg ids cells order hrun
-    (wfb_runTree (wfb_of_validate hval hN hd hnode) hrun) hv hlen hnd hproc hcs horder out hout
+    (wfb_runTree (wfb_of_validate hval hd) hrun) hv hlen hnd hproc hcs horder out hout
     i j idi idj c hidi hidj hci hcj
 
 example : ∀ out,
     mapPipeline exTree { chunkSize := 2, nProc := 2 } exVote [7, 3, 9] [5, 1, 5] [1, 0] = .ok out →
     ∃ oi oj, out[0]? = some oi ∧ out[2]? = some oj ∧ oi.levels = oj.levels :=
   fun out h => identical_cells_of_validate exTree exTree exVote { chunkSize := 2, nProc := 2 } [7, 3, 9]
-    [5, 1, 5] [1, 0] exTree_accepted.1 exTree_accepted.2.1 exTree_accepted.2.2.1
-    exTree_accepted.2.2.2 rfl (exVote_ok _) rfl
+    [5, 1, 5] [1, 0] exTree_accepted.1 exTree_accepted.2 rfl (exVote_ok _) rfl
     (by decide) (by decide) (by decide) (by decide) out h 0 2 7 9 5 rfl rfl rfl rfl
 
 end CTM.C06
